@@ -31,7 +31,10 @@ KINDS = ["sparse", "dense", "sym"]
 # preludes that are not (group, operation, input kind): building other objects from shared pieces, deriving the model / estimator functions
 EXTRA_STEPS = [("construct", "euler_groups_from_shared_sequence", "-"), ("construct", "euler_groups_fresh", "-"), ("construct", "semidirect_and_products", "-"),
                ("derive", "rdd2", "-"), ("derive", "rdd2_loglinear", "-"), ("derive", "bezier", "-"), ("derive", "quadrotor", "-"), ("derive", "estimator", "-"),
-               ("derive", "mr_ref_traj", "-")]
+               ("derive", "mr_ref_traj", "-"),
+               # life-cycle preludes: many calls with ever new numeric inputs (bounded caches fill and evict, counters run), objects copied,
+               # pickled, dropped and collected, library modules re-imported, calls from another thread
+               ("lifecycle", "many_calls", "-"), ("lifecycle", "copy_drop_collect", "-"), ("lifecycle", "reload", "-"), ("lifecycle", "other_thread", "-")]
 
 
 def menu(tier):
@@ -166,12 +169,71 @@ def do_extra(step):
             pass
 
 
+def do_lifecycle(step):
+    import copy
+    import gc
+    import importlib
+    import pickle
+    import threading
+    import casadi as ca
+    lie = _lie()
+    name = step[1]
+
+    def some_calls(n, scale=1.0):
+        for k in range(n):
+            for G in (lie.SO3Quat, lie.SO3Mrp, lie.SE3Quat, lie.SE23Mrp, lie.SE2):
+                try:
+                    x = G.algebra.elem(ca.DM(np.linspace(-0.3, 0.4, G.algebra.n_param) * scale + 1e-3 * k))
+                    X = x.exp(G)
+                    (X * X).log()
+                    X.inverse().to_Matrix()
+                    X.Ad()
+                except Exception:
+                    pass
+    with contextlib.redirect_stdout(io.StringIO()):
+        try:
+            if name == "many_calls":
+                some_calls(300)
+            elif name == "copy_drop_collect":
+                keep = []
+                for G in (lie.SO3Quat, lie.SE3Quat, lie.SE23Mrp, lie.SO3EulerB321):
+                    X = G.algebra.elem(ca.DM(np.linspace(-0.3, 0.4, G.algebra.n_param))).exp(G)
+                    for fn in (copy.copy, copy.deepcopy, lambda o: pickle.loads(pickle.dumps(o))):
+                        try:
+                            Y = fn(X)
+                            keep.append(Y)
+                            Y.param[0] = 0.123
+                            (Y * X).log()
+                            Gc = fn(G)
+                            Gc.identity()
+                        except Exception:
+                            pass
+                del keep
+                some_calls(3)
+                gc.collect()
+            elif name == "reload":
+                for m in ("cyecca.symbolic", "cyecca.util", "cyecca.sim.msgs", "cyecca.lie.util"):
+                    try:
+                        importlib.reload(importlib.import_module(m))
+                    except Exception:
+                        pass
+                some_calls(2)
+            elif name == "other_thread":
+                th = threading.Thread(target=lambda: some_calls(3, scale=2.0))
+                th.start()
+                th.join()
+        except Exception:
+            pass
+
+
 def do_step(step):
     import casadi as ca
     lie = _lie()
     g, op, kind = step
     if g in ("construct", "derive"):
         return do_extra(step)
+    if g == "lifecycle":
+        return do_lifecycle(step)
     G = _group(g)
     with contextlib.redirect_stdout(io.StringIO()):
         try:
